@@ -1,6 +1,7 @@
-"""C04 — see props/router_run.py"""
-from props import router_run
+"""C04 - unmatched requests get 404 or 405 with a truthful Allow header: the router side is in props/router_run.py; the request entry point
+(server.rs::http_request_handle) is executed as in C01: no handler runs for a request that matches no endpoint (any method, HEAD included)."""
+from props import router_run, c01
 
 
 def run(tier, replay_file=None):
-    return router_run.run('C04', tier, replay_file)
+    return router_run.run('C04', tier, replay_file, before_finish=c01.entry_point)
